@@ -13,7 +13,18 @@ symbols to a unit:
      signature is extended) makes the callee's declaration resolve through a
      foreign symbol table, and writes the new type -- e.g. ``intent(in)`` -- into
      that foreign table.
-Not decided: that every *used* variable is declared / imported, that the
+ R2  imports are eliminated against the complete use set: in
+     ``find_and_eliminate_unused_imports`` the set handed to
+     ``eliminate_unused_imports`` is not augmented afterwards, and the
+     contributions of the contained procedures (host association) are merged
+     into it before -- a host import used only by an internal procedure is
+     otherwise removed.
+ R3  accumulate, then consume: in ``extract_internal_procedure`` the list of host
+     variables that become dummies of the extracted routine is final before the
+     kinds / derived types / imports needed by those dummies are derived from
+     it (no statement adds to the list after a statement that reads the
+     ``.type`` of its elements).
+Not decided: that every *used* variable is declared / imported in general, that the
 generated code is accepted by frontend and compiler, symbols created without an
 explicit scope (they are attached when the unit rescopes).
 """
@@ -122,9 +133,125 @@ def run(ctx):
                                   f'(e.g. its intent) is written into that foreign table', instance=inst)
     ctx.floor('R1', 'extensions of argument / variable lists', n, 60)
     ctx.floor('R1', 'extensions with explicitly scoped new symbols', nsc, 30)
+    run_r23(ctx)
 
+
+def _mutations(fn, V):
+    """statements that (re)define or grow the local collection ``V``"""
+    out = []
+    for a in ast.walk(fn):
+        if isinstance(a, ast.Assign) and any(isinstance(t, ast.Name) and t.id == V for t in a.targets):
+            out.append(a)
+        elif isinstance(a, ast.AugAssign) and isinstance(a.target, ast.Name) and a.target.id == V:
+            out.append(a)
+        elif isinstance(a, ast.Expr) and isinstance(a.value, ast.Call) and isinstance(a.value.func, ast.Attribute) \
+                and a.value.func.attr in ('append', 'extend', 'add', 'update', 'insert') and isinstance(a.value.func.value, ast.Name) \
+                and a.value.func.value.id == V:
+            out.append(a)
+    return out
+
+
+def _simple_stmts(fn):
+    for n in ast.walk(fn):
+        if isinstance(n, (ast.Assign, ast.AugAssign, ast.Expr, ast.Return, ast.AnnAssign)):
+            yield n
+
+
+def run_r23(ctx):
+    from sa import exprs as X
+    m = ctx.model
+    ctx.rule('R2', 'find_and_eliminate_unused_imports: the use set is complete (own symbols + every member) when eliminate_unused_imports is called')
+    ctx.rule('R3', 'extract_internal_procedure: the list of variables turned into dummies is final before imports / kinds / types are derived from it')
+    U = 'loki/transformations/utilities.py'
+    f = m.get_function(U, 'find_and_eliminate_unused_imports')
+    calls = [st for st in _simple_stmts(f.node) if isinstance(st, ast.Expr) and isinstance(st.value, ast.Call)
+             and X.call_name_of(st.value) == 'eliminate_unused_imports']
+    if len(calls) != 1 or len(calls[0].value.args) < 2 or not isinstance(calls[0].value.args[1], ast.Name):
+        raise AnalysisError('find_and_eliminate_unused_imports: the call eliminate_unused_imports(routine, <set>) was not found')
+    S = calls[0].value.args[1].id
+    muts = _mutations(f.node, S)
+    late = [a for a in muts if a.lineno > calls[0].lineno]
+    rec = [a for a in muts if f.name in ast.unparse(a) and any(isinstance(l, ast.For) and 'members' in ast.unparse(l.iter) and a in list(ast.walk(l))
+                                                                for l in ast.walk(f.node))]
+    if late:
+        ctx.violation('R2', 'find_and_eliminate_unused_imports:eliminated-before-complete', f'{U}:{calls[0].lineno}',
+                      f'`{ast.unparse(calls[0])}` runs before `{ast.unparse(late[0])[:80]}` (line {late[0].lineno}): imports of the host that only a '
+                      f'contained procedure uses (host association) are removed, the member then refers to names that are neither declared '
+                      f'nor imported')
+    elif not rec:
+        ctx.violation('R2', 'find_and_eliminate_unused_imports:members-not-merged', f.where,
+                      'the symbols used by contained procedures are not merged into the use set of the host')
+    else:
+        ctx.judge('R2', 'use set complete before elimination', facts={'set': S, 'mutations': len(muts)})
+    # ---- R3
+    E = 'loki/transformations/extract/internal.py'
+    g = m.get_function(E, 'extract_internal_procedure')
+    adds = [a for a in ast.walk(g.node) if isinstance(a, ast.AugAssign) and isinstance(a.target, ast.Attribute) and a.target.attr == 'arguments']
+    comp = next((c for a in adds for c in ast.walk(a.value) if isinstance(c, (ast.GeneratorExp, ast.ListComp))
+                 and isinstance(c.generators[0].iter, ast.Name)), None)
+    if comp is None:
+        raise AnalysisError('extract_internal_procedure: `inner.arguments += (... for v in <list>)` was not found')
+    V = comp.generators[0].iter.id
+    muts = _mutations(g.node, V)
+    mut_ids = {id(x) for a in muts for x in ast.walk(a)}
+    # locals that only feed V (e.g. the list of shape variables appended to it)
+    feeders = {V}
+    changed = True
+    while changed:
+        changed = False
+        for a in muts:
+            for n in ast.walk(a):
+                if isinstance(n, ast.Name) and isinstance(n.ctx, ast.Load) and n.id not in feeders and any(
+                        isinstance(d, (ast.Assign, ast.AugAssign)) and n.id in {t.id for t in ast.walk(d) if isinstance(t, ast.Name) and isinstance(t.ctx, ast.Store)}
+                        for d in ast.walk(g.node)):
+                    feeders.add(n.id); changed = True
+    consumers = []
+    for st in _simple_stmts(g.node):
+        if id(st) in mut_ids:
+            continue
+        reads = any(isinstance(n, ast.Name) and n.id == V and isinstance(n.ctx, ast.Load) for n in ast.walk(st))
+        if not reads:
+            continue
+        stores = {t.id for t in ast.walk(st) if isinstance(t, ast.Name) and isinstance(t.ctx, ast.Store)}
+        if stores and stores <= feeders:
+            continue
+        consumers.append(st)
+    # consumers that derive type information (kinds, derived types) from the elements of the list
+    def reads_type(st):
+        for c in ast.walk(st):
+            if isinstance(c, (ast.GeneratorExp, ast.ListComp, ast.SetComp)):
+                for gen in c.generators:
+                    if any(isinstance(n, ast.Name) and n.id == V for n in ast.walk(gen.iter)) and isinstance(gen.target, ast.Name):
+                        if any(isinstance(a, ast.Attribute) and a.attr == 'type' and isinstance(a.value, ast.Name) and a.value.id == gen.target.id
+                               for a in ast.walk(c)):
+                            return True
+        return False
+    type_consumers = [st for st in consumers if reads_type(st) and not (isinstance(st, ast.AugAssign) and isinstance(st.target, ast.Attribute))]
+    growth = [a for a in muts if isinstance(a, (ast.AugAssign, ast.Expr)) or (
+        isinstance(a, ast.Assign) and any(isinstance(b, ast.BinOp) and isinstance(b.op, ast.Add) and any(
+            isinstance(n, ast.Name) and n.id == V for n in ast.walk(b)) for b in ast.walk(a.value)))]
+    if not type_consumers or not growth:
+        raise AnalysisError(f'extract_internal_procedure: type-deriving consumers ({len(type_consumers)}) / growth statements ({len(growth)}) of `{V}` not found')
+    ctx.floor('R3', 'statements deriving kinds / types from the dummy list', len(type_consumers), 2)
+    first = min(c.lineno for c in type_consumers)
+    late = [a for a in growth if a.lineno > first]
+    if late:
+        c0 = min(type_consumers, key=lambda c: c.lineno)
+        ctx.violation('R3', 'extract_internal_procedure:list-grows-after-use', f'{E}:{late[0].lineno}',
+                      f'`{ast.unparse(late[0])[:80]}` adds to `{V}` after `{ast.unparse(c0)[:70]}...` (line {c0.lineno}) has derived the needed kinds / '
+                      f'types from it: dummies added later come without their imports, the extracted routine uses a kind or type that is '
+                      f'neither declared nor imported')
+    else:
+        ctx.judge('R3', 'dummy list complete before kinds / types are derived from it',
+                  facts={'list': V, 'type_consumers': len(type_consumers), 'growth_statements': len(growth)})
 
 MUTANTS = [
+    Mutant('eliminate-before-members', 'loki/transformations/utilities.py',
+           "    # Recurse for contained subroutines/functions\n    for member in routine.members:\n        used_symbols |= find_and_eliminate_unused_imports(member)\n\n    eliminate_unused_imports(routine, used_symbols)\n",
+           "    eliminate_unused_imports(routine, used_symbols)\n\n    # Recurse for contained subroutines/functions\n    for member in routine.members:\n        used_symbols |= find_and_eliminate_unused_imports(member)\n",
+           expect=('R2', 'eliminated-before-complete')),
+    Mutant('shape-dummies-after-imports', 'loki/transformations/extract/internal.py',
+           "    inner.arguments += tuple(\n", "    vars_to_resolve += tuple(var_imports_to_add)\n    inner.arguments += tuple(\n", expect=('R3', 'list-grows-after-use')),
     Mutant('callee-args-scoped-to-caller', 'loki/transformations/argument_shape.py',
            "new_args = tuple(d.clone(scope=callee, type=d.type.clone(intent='IN')) for d in new_args)",
            "new_args = tuple(d.clone(scope=routine, type=d.type.clone(intent='IN')) for d in new_args)", expect=('R1', 'foreign-scope'), quick=True),
